@@ -217,13 +217,12 @@ theorem float_layout_eq (spec : Spec) (bits : Nat) :
     simp only [Option.map_some, padSigned_eq, pySign, signString]
 
 /-- Floats: `format_float` equals the C-`printf` reference (`pyFormatFloat`, on the correctly rounded
-    digits of `PV.Dec`) for `%e %E %f %F %g %G`, NaN and infinities included, when the precision is at
-    most 65530 and — only needed for `%g` — the digit generator returns the `P` significant digits
-    asked for (`hlen`: the model keeps the code's `{:.*}` truncation of the mantissa text). -/
-theorem float_eq_partial (spec : Spec) (bits : Nat) (k : FloatKind) (up : Bool)
-    (ht : spec.ftype = .float k up) (hp : floatPrecision spec ≤ 65530)
-    (hlen : ∀ P, k = .gen → P = (if floatPrecision spec = 0 then 1 else floatPrecision spec) →
-      (PV.Dec.toExpL (bits % 2 ^ 63) (P - 1)).1.length ≤ P + 1) :
+    digits of `PV.Dec`) for `%e %E %f %F %g %G`, NaN and infinities included, `#`, `%g` switching and
+    zero stripping — for EVERY spec of float type, EVERY precision and EVERY double.  (Before the fix
+    of the `format!` precision panic this needed `precision ≤ 65530`; and the hypothesis that the digit
+    generator returns the `P` digits asked for is now a theorem, `PV.C17.toExpL_length`.) -/
+theorem float_eq (spec : Spec) (bits : Nat) (k : FloatKind) (up : Bool)
+    (ht : spec.ftype = .float k up) :
     formatFloat spec bits =
       some (pyFormatFloat spec.flags (resolve spec.width) (resolve (toPyPrec spec.prec)) k up bits) := by
   unfold formatFloat pyFormatFloat
@@ -238,7 +237,7 @@ theorem float_eq_partial (spec : Spec) (bits : Nat) (k : FloatKind) (up : Bool)
       cases hh : PV.Dec.isNan (bits % 2 ^ 63) <;> simp_all
     have h2 : PV.Dec.isInf (bits % 2 ^ 63) = false := by
       cases hh : PV.Dec.isInf (bits % 2 ^ 63) <;> simp_all
-    rw [floatBody_eq spec bits k up ht hp ⟨h1, h2⟩ hlen]
+    rw [floatBody_eq spec bits k up ht ⟨h1, h2⟩]
     simp only [padSigned_eq, pySign, signString, ← isNan_abs bits, ← isInf_abs bits, h1, h2]
     simp
 
@@ -248,25 +247,29 @@ def specDot3g : Spec :=
     ftype := .float .gen false, fchar := 103 }
 
 example : specFromStr [37, 46, 51, 103] = .ok specDot3g := by decide
--- the hypotheses of `float_eq_partial` hold for `"%.3g" % 1234.5` (bits 0x40934A0000000000)
-example : floatPrecision specDot3g ≤ 65530 ∧
-    (PV.Dec.toExpL (0x40934A0000000000 % 2 ^ 63) (3 - 1)).1.length ≤ 3 + 1 := by decide
+-- `"%.3g" % 1234.5` (bits 0x40934A0000000000)
 example : formatFloat specDot3g 0x40934A0000000000 = some [49, 46, 50, 51, 101, 43, 48, 51] := by decide
 
-/-- Witness 5: `"%.65536f" % 1.5` panics (`format!` precision is a `u16`). -/
-theorem float_precision_panics :
-    formatFloat { key := none, flags := {}, width := none, prec := some (.quantity (.amount 65536)),
-                  ftype := .float .fix false, fchar := 102 } 0x3FF8000000000000 = none := by decide
+/-- `%.65536f` as the parser returns it -/
+def specDot65536f : Spec :=
+  { key := none, flags := {}, width := none, prec := some (.quantity (.amount 65536)),
+    ftype := .float .fix false, fchar := 102 }
+
+/-- The former witness of the `format!` precision panic: `"%.65536f" % 1.5` is `1.5` followed by 65535
+    zeros (the model returned `none` = panic before the fix). -/
+theorem float_precision_over_u16_repaired :
+    formatFloat specDot65536f 0x3FF8000000000000 =
+      some ([49, 46, 53] ++ List.replicate 65535 48) := by decide +kernel
 
 /-! ## no panics inside the domain
    (`formatString`, `formatChar` and, since 86620af, `formatBytes` are total functions of the model: the
-   code has no panic path there at all) -/
+   code has no panic path there at all; `format_float` has none left for specs of float type since the
+   `format!` precision fix — every precision, every double) -/
 
 theorem no_panic_partial :
     (∀ t, InDomain t → parseTemplate t ≠ .panic) ∧
     (∀ spec t n, spec.ftype = .number t → (formatNumber spec n).isSome = true) ∧
-    (∀ spec bits k up, spec.ftype = .float k up → floatPrecision spec ≤ 65530 →
-      (formatFloat spec bits).isSome = true) := by
+    (∀ spec bits k up, spec.ftype = .float k up → (formatFloat spec bits).isSome = true) := by
   refine ⟨?_, ?_, ?_⟩
   · intro t h hp
     have := split_eq_bytes t h
@@ -274,14 +277,7 @@ theorem no_panic_partial :
     simp [erase] at this
   · intro spec t n ht
     rw [number_eq spec t n ht]; rfl
-  · intro spec bits k up ht hp
-    rw [float_layout_eq]
-    simp only [Option.isSome_map, floatBody, ht]
-    cases k
-    · exact formatExponent_isSome _ _ _ _ (by omega)
-    · exact formatFixed_isSome _ _ _ _ (by omega)
-    · apply formatGeneral_isSome
-      · split <;> omega
-      · split <;> omega
+  · intro spec bits k up ht
+    rw [float_eq spec bits k up ht]; rfl
 
 end PV.C19
